@@ -691,3 +691,188 @@ Section PATHS.
     apply Z.le_antisymm; apply Hle; assumption.
   Qed.
 End PATHS.
+
+(* ---------------------------------------------------------------- the evaluator does not depend on the iteration order *)
+Lemma dset_same_keys {X} (t : list (C * X)) k x : In k (map fst t) -> map fst (dset t k x) = map fst t.
+Proof.
+  induction t as [|[k0 x0] t IH]; simpl; [tauto|]. intros H. destruct (ceqb k k0) eqn:E; [reflexivity|].
+  simpl. f_equal. apply IH. destruct H as [H|H]; [|exact H]. subst k0. rewrite Pos.eqb_refl in E. discriminate.
+Qed.
+
+Lemma dict_canonical (t : list (C * Z)) : NoDup (map fst t) -> t = map (fun c => (c, dget_or t c 0)) (map fst t).
+Proof.
+  induction t as [|[k x] t IH]; intros H; [reflexivity|]. inversion H as [|? ? Hk Ht]; subst.
+  cbn [map fst]. f_equal.
+  - unfold dget_or. cbn [dget]. rewrite Pos.eqb_refl. reflexivity.
+  - rewrite (IH Ht) at 1. apply map_ext_in. intros c Hc. f_equal. unfold dget_or. cbn [dget].
+    destruct (ceqb c k) eqn:E; [|reflexivity]. apply Pos.eqb_eq in E. subst c. contradiction.
+Qed.
+
+Lemma sch_fold_same_keys (ws : list pair) : forall d,
+  (forall p, In p ws -> In (fst p) (map fst d) /\ In (snd p) (map fst d)) ->
+  map fst (fold_left sch_step ws d) = map fst d.
+Proof.
+  induction ws as [|p ws IH]; intros d H; [reflexivity|]. simpl fold_left.
+  assert (Hk : map fst (sch_step d p) = map fst d).
+  { unfold sch_step, dadd. destruct (H p (or_introl eq_refl)) as [H1 H2].
+    rewrite dset_same_keys; rewrite dset_same_keys; try reflexivity; assumption. }
+  rewrite IH; [exact Hk|]. intros q Hq. rewrite Hk. apply H. right. exact Hq.
+Qed.
+
+Section ORDER.
+  Variable v : pvotes.
+  Hypothesis Hnd : NoDup (map fst v).
+  Hypothesis Hnn : forall p n, In (p, n) v -> 0 <= n.
+  Notation cs := (candidates v).
+
+  Lemma sscores_canonical order :
+    sscores v order = map (fun c => (c, Z.of_nat (length (opponents (widest_paths v order) c)))) cs.
+  Proof.
+    destruct (sscores_facts v Hnd Hnn order) as (Sn & _ & _).
+    assert (Hseed : map fst (map (fun c : C => (c, 0)) cs) = cs) by (rewrite map_map; simpl; apply map_id).
+    assert (Hk : map fst (sscores v order) = cs).
+    { unfold sscores. rewrite sch_fold_same_keys; [exact Hseed|]. intros [a b] Hp. rewrite Hseed.
+      apply (wins_iff _ (P_nodup v Hnd order) (P_nonneg v Hnd Hnn order)) in Hp. apply (P_beats_cs v Hnd Hnn order) in Hp. simpl. tauto. }
+    rewrite (dict_canonical _ Sn) at 1. rewrite Hk. apply map_ext. intros c. f_equal.
+    unfold sscores. rewrite sch_fold_get, seeded_get. unfold opponents. rewrite map_length. rewrite Z.add_0_l. reflexivity.
+  Qed.
+
+  Theorem schulze_order_irrelevant order1 order2 n : incl cs order1 -> incl cs order2 ->
+    schulze v order1 n = schulze v order2 n.
+  Proof.
+    intros H1 H2. rewrite !schulze_unfold. fold (sscores v order1). fold (sscores v order2).
+    rewrite !sscores_canonical. f_equal. apply map_ext. intros c. do 2 f_equal.
+    apply Permutation_length. apply NoDup_Permutation; try (apply opponents_NoDup, P_nodup; exact Hnd).
+    intros y. rewrite (opponents_spec _ (P_nodup v Hnd order1) (P_nonneg v Hnd Hnn order1)).
+    rewrite (opponents_spec _ (P_nodup v Hnd order2) (P_nonneg v Hnd Hnn order2)).
+    unfold beats. rewrite (wp_order_irrelevant v Hnd Hnn order1 order2 (y, c) H1 H2), (wp_order_irrelevant v Hnd Hnn order1 order2 (c, y) H1 H2). reflexivity.
+  Qed.
+End ORDER.
+
+(* ---------------------------------------------------------------- what raising w does to the table (C17, the part that holds) *)
+Section RAISE.
+  Variables v v' : pvotes.
+  Variable w : C.
+  Hypothesis Hnd : NoDup (map fst v).
+  Hypothesis Hnd' : NoDup (map fst v').
+  Hypothesis Hnn : forall p n, In (p, n) v -> 0 <= n.
+  Hypothesis Hnn' : forall p n, In (p, n) v' -> 0 <= n.
+  Hypothesis Hr : raises v v' w.
+  Variable order : list C.
+  Hypothesis Hord : incl (candidates v) order.
+
+  Lemma d0_out x : d0 v w x <= d0 v' w x.
+  Proof.
+    destruct Hr as (_ & Hup & _). destruct (Hup x) as [H1 H2]. unfold d0.
+    destruct (pget0 v (x, w) <? pget0 v (w, x)) eqn:E, (pget0 v' (x, w) <? pget0 v' (w, x)) eqn:E';
+      try apply Z.ltb_lt in E; try apply Z.ltb_lt in E'; try apply Z.ltb_ge in E; try apply Z.ltb_ge in E';
+      pose proof (pget0_nonneg v' Hnn' (w, x)); lia.
+  Qed.
+  Lemma d0_in x : d0 v' x w <= d0 v x w.
+  Proof.
+    destruct Hr as (_ & Hup & _). destruct (Hup x) as [H1 H2]. unfold d0.
+    destruct (pget0 v (w, x) <? pget0 v (x, w)) eqn:E, (pget0 v' (w, x) <? pget0 v' (x, w)) eqn:E';
+      try apply Z.ltb_lt in E; try apply Z.ltb_lt in E'; try apply Z.ltb_ge in E; try apply Z.ltb_ge in E';
+      pose proof (pget0_nonneg v Hnn (x, w)); lia.
+  Qed.
+  Lemma d0_same a b : a <> w -> b <> w -> d0 v' a b = d0 v a b.
+  Proof. destruct Hr as (_ & _ & Hs). intros Ha Hb. unfold d0. rewrite (Hs a b Ha Hb), (Hs b a Hb Ha). reflexivity. Qed.
+
+  (* a chain that starts in w need not come back to w: it only uses links out of w and links among the others *)
+  Lemma reach_out_aux s a x : reach v s a x -> x <> w -> reach v' s w x \/ (a <> w /\ reach v' s a x).
+  Proof.
+    induction 1 as [a b H|a m b H _ IH]; intros Hb.
+    - destruct (Pos.eq_dec a w) as [->|Ha].
+      + left. apply reach_one. pose proof (d0_out b). lia.
+      + right. split; [exact Ha|]. apply reach_one. rewrite (d0_same a b Ha Hb). exact H.
+    - destruct (IH Hb) as [L|[Hm R]]; [left; exact L|].
+      destruct (Pos.eq_dec a w) as [->|Ha].
+      + left. apply (reach_step v' s w m b); [pose proof (d0_out m); lia|exact R].
+      + right. split; [exact Ha|]. apply (reach_step v' s a m b); [rewrite (d0_same a m Ha Hm); exact H|exact R].
+  Qed.
+
+  (* a chain that ends in w need not pass through w before *)
+  Lemma reach_in_aux s a b : reach v' s a b -> b = w -> a <> w -> reach v s a w.
+  Proof.
+    induction 1 as [a b H|a m b H _ IH]; intros -> Ha.
+    - apply reach_one. pose proof (d0_in a). lia.
+    - destruct (Pos.eq_dec m w) as [->|Hm].
+      + apply reach_one. pose proof (d0_in a). lia.
+      + apply (reach_step v s a m w); [rewrite <- (d0_same a m Ha Hm); exact H|apply IH; [reflexivity|exact Hm]].
+  Qed.
+
+  Notation P := (widest_paths v order).
+  Notation P' := (widest_paths v' order).
+
+  Lemma ord_incl' : incl (candidates v') order.
+  Proof. destruct Hr as (Hc & _). rewrite Hc. exact Hord. Qed.
+
+  (* strongest paths out of w do not weaken, strongest paths into w do not strengthen *)
+  Theorem raise_paths_out x : pget0 P (w, x) <= pget0 P' (w, x).
+  Proof.
+    destruct (Pos.eq_dec x w) as [->|Hx]; [rewrite (wp_diag v Hnd Hnn), (wp_diag v' Hnd' Hnn'); lia|].
+    pose proof (P_nonneg0 v' Hnd' Hnn' order (w, x)) as H0.
+    destruct (Z_le_gt_dec (pget0 P (w, x)) 0) as [Hz|Hp]; [lia|].
+    apply (wp_complete v' Hnd' order w x _ ord_incl'); [lia|congruence|].
+    destruct (reach_out_aux _ w x (wp_sound v Hnd order w x _ (Z.le_refl _)) Hx) as [H|[H _]]; [exact H|congruence].
+  Qed.
+
+  Theorem raise_paths_in x : pget0 P' (x, w) <= pget0 P (x, w).
+  Proof.
+    destruct (Pos.eq_dec x w) as [->|Hx]; [rewrite (wp_diag v Hnd Hnn), (wp_diag v' Hnd' Hnn'); lia|].
+    pose proof (P_nonneg0 v Hnd Hnn order (x, w)) as H0.
+    destruct (Z_le_gt_dec (pget0 P' (x, w)) 0) as [Hz|Hp]; [lia|].
+    apply (wp_complete v Hnd order x w _ Hord); [lia|exact Hx|].
+    apply (reach_in_aux _ x w (wp_sound v' Hnd' order x w _ (Z.le_refl _)) eq_refl Hx).
+  Qed.
+
+  (* hence every path-win of w is kept and no path-defeat of w appears *)
+  Corollary raise_keeps_wins x : beats P w x -> beats P' w x.
+  Proof. unfold beats. pose proof (raise_paths_out x). pose proof (raise_paths_in x). lia. Qed.
+  Corollary raise_no_new_defeat x : beats P' x w -> beats P x w.
+  Proof. unfold beats. pose proof (raise_paths_out x). pose proof (raise_paths_in x). lia. Qed.
+
+  (* Schulze's own winner criterion (no path-defeat) is monotone *)
+  Corollary raise_potential_winner : (forall x, pget0 P (x, w) <= pget0 P (w, x)) -> forall x, pget0 P' (x, w) <= pget0 P' (w, x).
+  Proof. intros H x. pose proof (H x). pose proof (raise_paths_out x). pose proof (raise_paths_in x). lia. Qed.
+
+  (* the score votelib ranks by (number of path-wins) does not drop for w *)
+  Corollary raise_score : dget_or (sscores v order) w 0 <= dget_or (sscores v' order) w 0.
+  Proof.
+    unfold sscores. rewrite !sch_fold_get, !seeded_get. apply Zplus_le_compat_l. apply inj_le.
+    assert (E : forall u, length (filter (fun p : pair => ceqb (fst p) w) (pairwise_wins u false)) = length (opponents u w))
+      by (intros u; unfold opponents; rewrite map_length; reflexivity).
+    rewrite !E.
+    apply NoDup_incl_length; [apply opponents_NoDup, P_nodup, Hnd|].
+    intros y Hy. apply (opponents_spec _ (P_nodup v Hnd order) (P_nonneg v Hnd Hnn order)) in Hy.
+    apply (opponents_spec _ (P_nodup v' Hnd' order) (P_nonneg v' Hnd' Hnn' order)). apply raise_keeps_wins, Hy.
+  Qed.
+End RAISE.
+
+(* Second witness, six candidates: the sole winner LOSES.  Ranked profile (A..F = 1..6)
+     D>A>F>B>E>C x3, A>F>C>B>D>E x1, C>E>D>A x1, C>B>D>F>E>A x2, D>B>C>E>F>A x2, E>C>A>F>D>B x3, E>A>F>C>D>B x2;
+   one of the three ballots D>A>F>B>E>C becomes D>A>F>E>B>C (E moves one place up: (E,B) 6 -> 7, (B,E) 8 -> 7).
+   Before: E has three path-wins, A and C two: E wins alone.  After: B no longer beats E, the strength-8 paths through
+   B->E disappear, C now has four path-wins and D three: C wins alone, E is third. *)
+Definition mono6_v : pvotes := mk_pv
+  [(1,2,10);(1,3,6);(1,4,6);(1,5,4);(1,6,10);(2,1,4);(2,3,5);(2,4,3);(2,5,8);(2,6,4);(3,1,8);(3,2,9);(3,4,9);(3,5,6);(3,6,8);
+   (4,1,8);(4,2,11);(4,3,5);(4,5,8);(4,6,8);(5,1,10);(5,2,6);(5,3,8);(5,4,6);(5,6,8);(6,1,4);(6,2,9);(6,3,6);(6,4,6);(6,5,6)].
+Definition mono6_v' : pvotes := mk_pv
+  [(1,2,10);(1,3,6);(1,4,6);(1,5,4);(1,6,10);(2,1,4);(2,3,5);(2,4,3);(2,5,7);(2,6,4);(3,1,8);(3,2,9);(3,4,9);(3,5,6);(3,6,8);
+   (4,1,8);(4,2,11);(4,3,5);(4,5,8);(4,6,8);(5,1,10);(5,2,7);(5,3,8);(5,4,6);(5,6,8);(6,1,4);(6,2,9);(6,3,6);(6,4,6);(6,5,6)].
+
+Theorem schulze_monotone_refuted_loses :
+  NoDup (map fst mono6_v) /\ NoDup (map fst mono6_v') /\
+  (forall p n, In (p, n) mono6_v -> 0 <= n) /\ (forall p n, In (p, n) mono6_v' -> 0 <= n) /\
+  raises mono6_v mono6_v' 5%positive /\
+  schulze mono6_v (candidates mono6_v) 1 = [Cand 5%positive] /\
+  schulze mono6_v' (candidates mono6_v') 1 = [Cand 3%positive] /\
+  schulze mono6_v' (candidates mono6_v') 3 = [Cand 3%positive; Cand 4%positive; Cand 5%positive].
+Proof.
+  split; [apply nodup_keys_b_sound; vm_compute; reflexivity|].
+  split; [apply nodup_keys_b_sound; vm_compute; reflexivity|].
+  split; [apply nonneg_b_sound; vm_compute; reflexivity|].
+  split; [apply nonneg_b_sound; vm_compute; reflexivity|].
+  split; [apply raises_b_sound; vm_compute; reflexivity|].
+  split; [vm_compute; reflexivity|]. split; vm_compute; reflexivity.
+Qed.
